@@ -109,6 +109,52 @@ pub fn f2k(kinds: &'static [usize], label: &str) -> Family {
     }
 }
 
+/// F3L: three pieces on one rank or one file (any three squares of the line: far apart as well as adjacent), kinds
+/// R E r e.  What a carry, borrow or rotate travelling along a rank / file (or across a rank boundary) would disturb.
+pub fn f3line() -> Family {
+    let mut triples: Vec<[usize; 3]> = Vec::new();
+    for line in 0..8usize {
+        for a in 0..8usize {
+            for b in (a + 1)..8 {
+                for c in (b + 1)..8 {
+                    triples.push([line * 8 + a, line * 8 + b, line * 8 + c]);
+                    triples.push([a * 8 + line, b * 8 + line, c * 8 + line]);
+                }
+            }
+        }
+    }
+    // ... and triples that straddle a rank boundary: g_k, h_k, a_(k-1) / h_k, a_(k-1), b_(k-1) (consecutive bits)
+    for i in 0..62usize {
+        if i % 8 >= 6 {
+            triples.push([i, i + 1, i + 2]);
+        }
+    }
+    const K4: [usize; 4] = [0, 5, 6, 11];
+    let n = triples.len() as u64 * 64 * 2;
+    Family {
+        name: format!("F3L (3 pieces on one rank or file, any spacing, plus consecutive-bit triples across a rank boundary; kinds REre; {} square triples x 4^3 kinds x 2 sides)", triples.len()),
+        n,
+        how: 0,
+        setups: None,
+        decode: Box::new(move |idx| {
+            let side = idx % 2 == 0;
+            let mut x = idx / 2;
+            let mut b = [rm::EMPTY; 64];
+            let t = triples[(x / 64) as usize];
+            x %= 64;
+            for j in 0..3 {
+                b[t[j]] = kind_cell(K4[(x % 4) as usize]);
+                x /= 4;
+            }
+            if legal(&b) {
+                Some((b, side))
+            } else {
+                None
+            }
+        }),
+    }
+}
+
 /// All square triples whose bounding box fits a 3x3 window whose top-left corner (file, row) is in `anchors`
 /// (None = every one of the 36 windows).  Each triple appears once.
 pub fn window_triples(anchors: Option<&[(usize, usize)]>) -> Vec<(usize, usize, usize)> {
